@@ -198,7 +198,7 @@ class Sweep:
                         else:
                             dims.append(_dims)
         return Sweep(
-            self.items,
+            {k: v for k, v in self.items.items() if k in keys},  # items that are no dimension anymore are not carried along
             dims=dims,
             exclude=self.exclude,
             constants=self.constants,
